@@ -191,8 +191,11 @@ func genC15(r *core.Rand, run int) *MuxScenario {
 		nresp = 1 + r.Intn(5)
 	}
 	for i := 0; i < nresp; i++ {
-		h.Resps = append(h.Resps, MsgSpec{Size: r.Pick(0, 8, 100, 400), Seed: r.U64() >> 8})
+		h.Resps = append(h.Resps, MsgSpec{Size: r.Pick(0, 8, 100, 400, 400, 5000), Seed: r.U64() >> 8})
 	}
+	// (the compressed send path is a path of its own: prefix and payload are
+	// written from the compression buffer)
+	sp.Compress = strings.HasPrefix(c.proto, "grpc") && r.Chance(1, 3)
 	switch mi.Shape() {
 	case "unary":
 		h.Steps = []HStep{{Op: "waitctx"}}
@@ -238,6 +241,7 @@ func genC15(r *core.Rand, run int) *MuxScenario {
 		sp.PingPong = false
 	}
 	sc.Reqs = []ReqSpec{sp}
+	fitLimits(sc)
 	return sc
 }
 
